@@ -844,3 +844,14 @@ func (e *Engine) Walk(fn *ssa.Function, descendAtoms bool, visit func(in ssa.Ins
 	}
 	walk(fn, e.Root(fn))
 }
+
+// GatesAt returns, per alternative, the gates that hold whenever block is
+// reached in fn (evaluated in ctx).
+func (e *Engine) GatesAt(fn *ssa.Function, ctx *Ctx, block int) []*Alt {
+	g := e.GraphOf(fn, ctx)
+	var alts []*Alt
+	for _, st := range e.collect(g, block, []state{{nil, ctx}}, 0) {
+		alts = append(alts, &Alt{Gates: st.gates, Ctx: st.ctx})
+	}
+	return alts
+}
